@@ -32,6 +32,11 @@ def showBisect {α : Type} (sh : α → String) (nr : Nat) (trace : List α) (re
 * `intercept tau s00 n fuel | w… | y… | b0`   → `β conv` : `interceptFit` from `b0`
 * `bisect q tol maxIter e0 | r0 r1 …`         → `ValueError` | `e1 e2 … | lo hi e nIter conv`   (exact rationals)
 * `bisectf q tol maxIter e0 | r0 r1 …`        → the same over IEEE doubles (bit patterns)
+* `searchi q tol maxIter e0 s00 n fuel pre | w… | y… | cold`
+                                              → `ValueError` | `e1 β1 c1 e2 β2 c2 … | lo hi e nIter conv | β c`
+      `fitQuantileW` on the intercept-only model (`interceptModelFit`, `interceptRatio`) with the sample weights `w` as the
+      forwarded keyword: expectile / coefficient / converged flag of every re-fit, the final bracket state, the returned
+      coefficient.  `pre` = `-` (not fitted: the first fit is `fit w e0`) or the coefficient of an already fitted model.
 -/
 def handle : List String → Option String
   | ["valid", e] => do
@@ -77,5 +82,24 @@ def handle : List String → Option String
       | some res =>
           let tr := bisectTrace ratio q tol maxIter.toNat { lo := 0, hi := 1, e := e0, nIter := 0 }
           some (showBisect showFloat rs.length tr res)
+  | "searchi" :: q :: tol :: maxIter :: e0 :: s00 :: n :: fuel :: pre :: "|" :: rest => do
+      let q ← parseRat? q; let tol ← parseRat? tol; let maxIter ← parseInt? maxIter; let e0 ← parseRat? e0
+      let s00 ← parseRat? s00; let n ← n.toNat?; let fuel ← fuel.toNat?
+      let pre : Option (Rat × Bool) ← (if pre = "-" then some none else (parseRat? pre).map (fun b => some (b, true)))
+      match splitBar rest with
+      | [ws, ys, [cold]] =>
+          let w ← ratVec? n ws; let y ← ratVec? n ys; let cold ← parseRat? cold
+          let fit := interceptModelFit s00 n y fuel cold
+          let ratio := interceptRatio n y
+          match fitQuantileW fit ratio w q tol maxIter e0 pre with
+          | none => some "ValueError"
+          | some res =>
+              let tr := searchTrace fit ratio w q tol maxIter.toNat
+                { b := { lo := 0, hi := 1, e := e0, nIter := 0 }, model := searchStart fit w e0 pre }
+              some (joinWith " " (tr.map (fun em => showRat em.1 ++ " " ++ showRat em.2.1 ++ " " ++ showBool em.2.2))
+                ++ " | " ++ showRat res.1.b.lo ++ " " ++ showRat res.1.b.hi ++ " " ++ showRat res.1.b.e
+                ++ " " ++ toString res.1.b.nIter ++ " " ++ showBool res.2
+                ++ " | " ++ showRat res.1.model.1 ++ " " ++ showBool res.1.model.2)
+      | _ => none
   | _ => none
 end PyGam.Drv.C18
